@@ -726,19 +726,14 @@ class Engine:
             for vn, d, fnames in vs:
                 if vn == last:
                     if named is not None:
-                        order = fnames if fnames else sorted(named, key=lambda k: int(k))
-                        fields = [named[f] for f in order]
+                        fields = list(named.values())   # MIR prints aggregate fields in declaration (index) order
                     else:
                         fields = args or []
                     return Adt(enum, last, fields)
             raise Unmodelled(f'variant {last} of {enum}')
         if last in self.lay.structs or named is not None or args is not None:
             if named is not None:
-                fn_ = self.lay.structs.get(last)
-                if fn_ and all(f in named for f in fn_):
-                    fields = [named[f] for f in fn_]
-                else:
-                    fields = [named[k] for k in sorted(named, key=lambda k: (not k.isdigit(), int(k) if k.isdigit() else k))]
+                fields = list(named.values())       # declaration (index) order, as printed
             else:
                 fields = args or []
             return Adt(last, None, fields)
